@@ -397,6 +397,10 @@ func TestVFC11Authenticated(t *testing.T) {
 			if useCookie {
 				r.AddCookie(&http.Cookie{Name: sessionCookieName, Value: session})
 			} else {
+				// the administrator's own machine, not the address the
+				// requests with bad credentials come from (failed Basic
+				// attempts count against their address)
+				r.RemoteAddr = "198.51.100.7:4242"
 				r.SetBasicAuth(vfAdminUser, vfAdminPass)
 			}
 		}
@@ -527,7 +531,10 @@ func TestVFC11PublicAndValid(t *testing.T) {
 		t.Fatalf("login did not set a session cookie")
 	}
 	withCookie := func(r *http.Request) { r.AddCookie(&http.Cookie{Name: sessionCookieName, Value: cookie.Value}) }
-	withBasic := func(r *http.Request) { r.SetBasicAuth(vfAdminUser, vfAdminPass) }
+	withBasic := func(r *http.Request) {
+		r.RemoteAddr = "198.51.100.7:4242"
+		r.SetBasicAuth(vfAdminUser, vfAdminPass)
+	}
 
 	for _, p := range vfSafeGET {
 		for name, auth := range map[string]func(*http.Request){"cookie": withCookie, "basic": withBasic} {
